@@ -226,7 +226,126 @@ def standin_key_algebra(tier, seed):
                 bound="6 keys x 9 prefix pairs x 3 key maps; all 36 pairs of qubit permutations on 3 qubits (exhaustive)", cases=cases, distinct=cases,
                 failures=len(fails), exhaustive=True, _fails=fails[:4])
 standin_key_algebra.prop = "C12"
-STANDINS = [standin_subcircuits, standin_key_algebra]
+
+
+def standin_params_and_loops(tier, seed):
+    """bound parameters (with_params compositions, nesting, outer resolution) and repeat-until loops (deterministic iteration counts,
+    key maps / paths / nesting) against flat circuits written out by hand"""
+    import cirq
+    import sympy
+    from contracts.scripted_rng import enumerate_branches
+    from contracts.C02_born import _canon_records
+
+    rng = random.Random(seed + 17)
+    cases, fails = 0, []
+    a, b, c = sympy.symbols("a b c")
+    q = cirq.LineQubit.range(3)
+
+    def bad(kind, clause, **kw):
+        if sum(1 for f in fails if f["failed"] == kind) < 2:
+            fails.append(dict(args={k: repr(v) for k, v in kw.items()}, failed=kind, clause=clause))
+
+    # ---- bound parameters ----------------------------------------------------------------------------------------------------
+    exprs = [a, b, a + b, 2 * a, a * b, a - c / 2, 0.25, c]
+    for it in range(40 if tier == "quick" else 400):
+        e1, e2, e3 = (rng.choice(exprs) for _ in range(3))
+        body = lambda x1, x2, x3: [cirq.X(q[0]) ** x1, cirq.CZ(q[0], q[1]) ** x2, cirq.rz(x3 if not isinstance(x3, float) else x3).on(q[1]), cirq.H(q[2])]
+        op = cirq.CircuitOperation(cirq.FrozenCircuit(body(e1, e2, e3)))
+        maps = [{rng.choice([a, b, c]): rng.choice([0.5, -0.25, b, c + 1, 2 * a, a]) for _ in range(rng.randrange(1, 3))} for _ in range(rng.randrange(1, 4))]
+        sub = lambda e, m: (e.subs(m, simultaneous=True) if isinstance(e, sympy.Basic) else e)
+        f1, f2, f3 = e1, e2, e3
+        wrapped = op
+        for m in maps:
+            wrapped = wrapped.with_params(m)
+            f1, f2, f3 = sub(f1, m), sub(f2, m), sub(f3, m)
+        if rng.random() < 0.4:
+            wrapped = cirq.CircuitOperation(cirq.FrozenCircuit(wrapped, cirq.Y(q[2]) ** a)).repeat(2)
+            flat_ops = lambda v: (body(*v) + [cirq.Y(q[2]) ** float(sub(a, final))]) * 2
+        else:
+            flat_ops = lambda v: body(*v)
+        final = {s_: rng.choice([0.3, -0.7, 1.25, 0.5]) for s_ in (a, b, c)}
+        vals = []
+        for f in (f1, f2, f3):
+            v = sub(f, final)
+            vals.append(float(v) if isinstance(v, sympy.Basic) else v)
+        cases += 1
+        try:
+            got = cirq.unitary(cirq.resolve_parameters(cirq.Circuit(wrapped), final))
+            got2 = cirq.unitary(cirq.resolve_parameters(cirq.Circuit(wrapped.mapped_circuit(deep=True) if hasattr(wrapped, "mapped_circuit") else wrapped), final))
+        except Exception as ex:
+            bad("bound-parameters-raised", f"{type(ex).__name__}: {str(ex)[:160]}", body=(e1, e2, e3), with_params=maps, final=final)
+            continue
+        want = cirq.unitary(cirq.Circuit(flat_ops(vals)))
+        want = refsim.embed(want, sorted(cirq.Circuit(flat_ops(vals)).all_qubits()), list(q)) if want.shape[0] != 8 else want
+        if got.shape == want.shape and not np.allclose(got, want, atol=1e-7):
+            bad("bound-parameters", "resolving the wrapped operation differs from substituting the maps, in order, into the body by hand", body=(e1, e2, e3), with_params=maps, final=final)
+        if got2.shape == want.shape and not np.allclose(got2, want, atol=1e-7):
+            bad("bound-parameters-mapped-circuit", "mapped_circuit(deep=True) then resolving differs from substituting the maps by hand", body=(e1, e2, e3), with_params=maps, final=final)
+
+    # ---- repeat-until loops with a known number of iterations -----------------------------------------------------------------
+    def loop_case(n_iter_kind, wrap_kind, cond_kind):
+        # body toggles: iteration 1 leaves m = 0, iteration 2 leaves m = 1 (two iterations), or m = 1 at once (one iteration)
+        if n_iter_kind == 2:
+            body = [cirq.CNOT(q[0], q[1]), cirq.X(q[0]), cirq.measure(q[1], key="m")]
+            iters = 2
+        else:
+            body = [cirq.X(q[1]), cirq.measure(q[1], key="m")]
+            iters = 1
+        extra = [cirq.H(q[2]), cirq.measure(q[2], key="k")]  # a random bit per iteration: every iteration's record must be kept
+        key = cirq.MeasurementKey("m")
+        cond = {"key": cirq.KeyCondition(key), "sympy": cirq.SympyCondition(sympy.Eq(sympy.Symbol("m"), 1)),
+                "mask": cirq.BitMaskKeyCondition("m", bitmask=1, target_value=1, equal_target=True)}[cond_kind]
+        op = cirq.CircuitOperation(cirq.FrozenCircuit(body + extra), use_repetition_ids=False, repeat_until=cond)
+        K = lambda name: cirq.MeasurementKey(name)
+        if wrap_kind == "keymap":
+            op = op.with_measurement_key_mapping({"m": "z"})
+            K = lambda name: cirq.MeasurementKey({"m": "z"}.get(name, name))
+        elif wrap_kind == "path":
+            op = op.with_key_path(("p",))
+            K = lambda name: cirq.MeasurementKey(name, path=("p",))
+        elif wrap_kind == "nested":
+            op = cirq.CircuitOperation(cirq.FrozenCircuit(op)).repeat(2, use_repetition_ids=True)
+        flat = []
+        outer = ["0", "1"] if wrap_kind == "nested" else [None]
+        for pre in outer:
+            KK = (lambda name, pre=pre: cirq.MeasurementKey(name, path=(pre,))) if pre is not None else K
+            # the second outer repetition starts from the state the first one left: q0, q1 are toggled again
+            for i in range(iters if pre in (None, "0") else None or iters):
+                for o in body + extra:
+                    flat.append(cirq.with_measurement_key_mapping(o, {}) if not cirq.is_measurement(o) else cirq.measure(*o.qubits, key=KK(cirq.measurement_key_name(o))))
+        return op, flat, iters
+
+    combos = [(n, w, cnd) for n in (1, 2) for w in ("plain", "keymap", "path", "nested") for cnd in ("key", "sympy", "mask")]
+    for n, w, cnd in combos:
+        if w == "nested" and n == 2:
+            continue  # the second outer pass starts from a different state: its iteration count differs; keep to the cases written out by hand
+        op, flat, iters = loop_case(n, w, cnd)
+        circ = cirq.Circuit(op)
+        cases += 1
+        try:
+            want = refsim.ref_distribution(cirq.Circuit(flat, strategy=cirq.InsertStrategy.NEW), list(q))
+        except Exception as ex:
+            continue
+        for name, mk in (("Simulator", lambda s_: cirq.Simulator(seed=s_)), ("DensityMatrixSimulator", lambda s_: cirq.DensityMatrixSimulator(seed=s_))):
+            try:
+                got = {}
+                for p_, rec in enumerate_branches(lambda r: _canon_records(mk(r).run(circ, repetitions=1))):
+                    got[rec] = got.get(rec, 0.0) + p_
+            except RuntimeError:
+                continue
+            except Exception as ex:
+                bad("repeat-until-raised", f"{name}: {type(ex).__name__}: {str(ex)[:160]}", circuit=circ)
+                continue
+            if not refsim.dist_close(got, want, atol=1e-5):
+                badk = [k_ for k_ in set(got) | set(want) if abs(got.get(k_, 0) - want.get(k_, 0)) > 1e-5][:2]
+                bad("repeat-until", f"{name}: records of the loop differ from the body written out {iters} time(s): {[(k_, round(got.get(k_, 0), 4), round(want.get(k_, 0), 4)) for k_ in badk]} (got, expected)",
+                    circuit=circ, iterations=iters)
+    return dict(function=F + "[bound parameters, repeat-until]", case="params-and-loops",
+                bound="seeded bodies with 3 parameterized gates x 1-3 composed with_params maps (symbols onto symbols / expressions / numbers) x optional nesting, resolved at random values; "
+                      "repeat-until loops with 1 or 2 deterministic iterations x {plain, key map, key path, nested in a repeated sub-circuit} x {key, sympy, bit-mask} conditions x 2 simulators",
+                cases=cases, distinct=cases, failures=len(fails), exhaustive=False, _fails=fails[:4])
+standin_params_and_loops.prop = "C12"
+STANDINS = [standin_subcircuits, standin_key_algebra, standin_params_and_loops]
 
 
 def _replay_scoping(ob, seed):
@@ -237,7 +356,7 @@ def _replay_scoping(ob, seed):
 REPLAYERS = {"cirq-core/cirq/value/condition.py:Condition._with_rescoped_keys_": _replay_scoping}
 NOT_COVERED = [
     "CircuitOperation.with_qubit_mapping / with_measurement_key_mapping / repeat / _with_rescoped_keys_, AbstractCircuit._with_rescoped_keys_: bounded only",
-    "repeat_until, parameter binding inside sub-circuits (param_resolver), symbolic repetitions: not exercised",
+    "symbolic repetitions: not exercised; repeat_until and bound parameters: bounded (hand-flattened cases)",
     "Condition._with_rescoped_keys_ is proved for scope paths of length <= 4 only (loop unrolled)",
 ]
 ASSUMPTIONS = ["the bindable set is seen only through membership of the candidate keys (free boolean per prefix length)"]
